@@ -12,8 +12,9 @@ from typing import Any
 
 from .tlc import ROOT, MachineryError, TLCResult
 
-EVIDENCE_DIR = ROOT / "evidence"
-REPLAY_DIR = ROOT / "replay"
+# mutant / scratch runs redirect their output so that the committed evidence is never overwritten by them
+EVIDENCE_DIR = Path(os.environ.get("VERIF_EVIDENCE_DIR") or ROOT / "evidence")
+REPLAY_DIR = Path(os.environ.get("VERIF_REPLAY_DIR") or ROOT / "replay")
 FINDINGS_FILE = ROOT / "known_findings.json"
 
 
